@@ -264,10 +264,20 @@ COUPLING_KNOWN = {}
 
 @rule("R06.3", min_instances=4, desc="every concrete method places the grid's coupling/bound constraints for every control interval k")
 def r06_3(ctx):
+    check_coupling(ctx)
+
+
+def check_coupling(ctx, only_localisable=False):
     prog = ctx.prog
     for cname in prog.subclasses("SamplingMethod"):
         if cname == "SamplingMethod":
             continue
+        if only_localisable:
+            # a method that asserts an unlocalised grid has no local time variables to couple
+            av = prog.method(cname, "add_variables")
+            if any(isinstance(a, ast.Assert) and "localize_t0" in ast.unparse(a.test) and "localize_T" in ast.unparse(a.test) for a in walk_no_nested(av.node)):
+                ctx.ok("%s rejects localised grids (nothing to couple)" % cname, fi=av)
+                continue
         f = prog.method(cname, "add_constraints")
         n = ctx.norm(f)
         sc = ctx.scope(f)
